@@ -210,7 +210,8 @@ def gen_def2(rng, k, regs, extras):
     pool = sorted(TYPE_TEXTS)
     if kind < 0.35:
         version, ann = gen_names(rng, k, taken, False)
-        cols = [["c%d_%d" % (k, i), rng.choice(pool)] for i in range(rng.randrange(1, 6))]
+        # (now and then a wide panel: more columns than CPython keeps small integers for, 257)
+        cols = [["c%d_%d" % (k, i), rng.choice(pool)] for i in range(rng.randrange(1, 6) if rng.random() < 0.85 else rng.choice([258, 300]))]
         if rng.random() < 0.5:
             cols[rng.randrange(len(cols))][1] = rng.choice(["MafColumnRecord", "IntegerColumn", "FloatColumn", "StringColumn"])
         filtered = [cols[-1][0]] if len(cols) > 1 and rng.random() < 0.15 else None
